@@ -252,6 +252,26 @@ func runC01(c *fw.Ctx) {
 			if p.engine != "btree" && depth > 0 {
 				return
 			}
+			if depth == 0 {
+				// requests far longer than any per-request buffer is likely to be sized for: one MutateRow of 600
+				// mutations (writes to 200 columns at three timestamps, every fifth a delete of an earlier column), one
+				// MutateRows of 300 entries over three rows
+				q := func(i int) string { return fmt.Sprintf("q%03d", i%200) }
+				var ms []bt.Mut
+				for i := 0; i < 600; i++ {
+					if i%5 == 4 {
+						ms = append(ms, mdelcol("f", q(i-2)))
+					} else {
+						ms = append(ms, mset("f", q(i), int64(1000+1000*(i%3)), fmt.Sprintf("v%d", i)))
+					}
+				}
+				try(bt.Op{Kind: "MutateRow", Table: tblT, Key: []byte("a"), Muts: ms})
+				var es []bt.Entry
+				for i := 0; i < 300; i++ {
+					es = append(es, bt.Entry{Key: []byte([]string{"a", "a\x00", "ab"}[i%3]), Muts: []bt.Mut{mset("g", q(i), 1000, fmt.Sprintf("e%d", i)), mdelcol("g", q(i+1))}})
+				}
+				try(bt.Op{Kind: "MutateRows", Table: tblT, Entries: es})
+			}
 			for _, m1 := range tcore {
 				for _, m2 := range tcore {
 					for _, m3 := range tcore {
